@@ -116,11 +116,16 @@ def deep_recursion(R, tier):
         ('template', 'start = P("x")\nP(x) = ("(" >> P(x) << ")") | x\n', lambda v: v),
         ('class', 'class N { o: "("; inner: Opt(N); c: ")" }\nstart = N\n', lambda v: v),
         ('named-grammar', 'grammar c17deep\nstart = "[" >> (start | "x") << "]"\n', lambda v: v),
+        # templates whose ARGUMENT is a call of its own at every level (the argument grows with the recursion), and a template
+        # with a compound argument
+        ('template-growing-argument', 'start = P("x")\nP(x) = ("(" >> P(W(x)) << ")") | x\nW(x) = x\n', lambda v: v),
+        ('template-compound-argument', 'start = P("x" | "y")\nP(x) = ("(" >> P(x | "z") << ")") | x\n', lambda v: v),
+        ('class-with-parameter', 'class N(t) { o: "("; inner: Opt(N(t)); c: t }\nstart = N(")")\n', lambda v: v),
     ]
     for name, desc, _ in fams:
         g = Grammar(desc)
         for d in depths:
-            if name == 'template':
+            if name.startswith('template'):
                 text = '(' * d + 'x' + ')' * d
             elif name == 'named-grammar':
                 text = '[' * d + 'x' + ']' * d
@@ -129,7 +134,7 @@ def deep_recursion(R, tier):
             R.count('deep-recursion', (name, d))
             try:
                 v = g.parse(text)
-                if name == 'class':
+                if name.startswith('class'):
                     k = 0
                     while v is not None:
                         v = v.inner
